@@ -9,6 +9,7 @@ import (
 
 	grpctest "github.com/hashicorp/go-plugin/test/grpc"
 	"google.golang.org/grpc"
+	"google.golang.org/grpc/backoff"
 	"google.golang.org/grpc/keepalive"
 
 	"verif/engine/explore"
@@ -130,7 +131,15 @@ func init() {
 				}
 				dial := func() {
 					t0 := x.Now()
-					cc, err := db.Dial(id)
+					var dopts []grpc.DialOption
+					var copts []grpc.CallOption
+					if c := ms(p["connect"]); c > 0 && i == 0 {
+						// the first connection is dialled with a connect timeout and back-off of the caller's own (shorter than
+						// the broker's 5 s waits); its first call waits for the connection to come up
+						dopts = append(dopts, grpc.WithConnectParams(grpc.ConnectParams{MinConnectTimeout: c, Backoff: backoff.Config{BaseDelay: c, Multiplier: 1, MaxDelay: c}}))
+						copts = append(copts, grpc.WaitForReady(true))
+					}
+					cc, err := db.DialWithOptions(id, dopts...)
 					if err != nil {
 						x.Put(fmt.Sprintf("derr%d", 20+i), fmt.Sprintf("Dial: %v", err))
 						res <- est{id: id}
@@ -139,7 +148,12 @@ func init() {
 					x.OnCleanup(func() { cc.Close() })
 					ctx, cancel := context.WithTimeout(context.Background(), 20*time.Second)
 					defer cancel()
-					got, err := pingTag(ctx, cc)
+					var got string
+					if r, e := grpctest.NewPingPongClient(cc).Ping(ctx, &grpctest.PingRequest{}, copts...); e != nil {
+						err = e
+					} else {
+						got = r.Msg
+					}
 					x.Obs("est%d err=%v tag=%s", id, err != nil, got)
 					if err != nil {
 						x.Put(fmt.Sprintf("derr%d", 20+i), fmt.Sprintf("first RPC: %v (after %v)", err, x.Now()-t0))
@@ -312,6 +326,16 @@ func init() {
 						out = append(out, explore.Params{"seq": a, "factory": f})
 					}
 					out = append(out, explore.Params{"seq": "pA0,hA0", "factory": f})
+				}
+			case "short-connect":
+				// the first connection is dialled before it is accepted, with a 2 s connect timeout and back-off of the dialler's
+				// own; the acceptor arrives after 3 s (during the back-off); then further connections (schedules and select choices, no timer deviations:
+				// the timers here are the caller's)
+				for _, a := range []string{"hD3000", "pD3000"} {
+					out = append(out, explore.Params{"seq": a, "connect": "2000", "notime": "1"})
+					for _, b := range []string{"hA0", "pA0", "hD0", "pD0"} {
+						out = append(out, explore.Params{"seq": a + "," + b, "connect": "2000", "notime": "1"})
+					}
 				}
 			case "ids":
 				// caller-chosen ids at the edges of uint32, alone and next to an ordinary id
